@@ -638,7 +638,7 @@ def obligations(tier):
   if thorough:
     for i, a in enumerate(ACTION_KEYS):
       acases.append(dict(host=hosts[i % 3], sel=[a, ACTION_KEYS[(i + 5) % len(ACTION_KEYS)], ACTION_KEYS[(i + 9) % len(ACTION_KEYS)]]))
-  lcases = [dict(key=k, n=n) for k, s in SPECS.items() if s.get('list') for n in ([2] if not thorough else [2, 3])]
+  lcases = [dict(key=k, n=n) for k, s in SPECS.items() if s.get('list') for n in ([2, 3] if not thorough else [2, 3, 5])]
   BOUNDS[tier] = dict(integer_fields="every integer/address field symbolic over its full wire width", payload_bytes="0..6 (quick) / 0..13 (thorough), all contents",
                       action_lists="0..2 (quick, sampled pairs) / all pairs + triples (thorough) over all 13 action encodings",
                       ports_queues="0..2 / 0..3", stats_lists="1..2 / 1..3 entries", strings="concrete: %r" % (STR_CASES,),
